@@ -51,6 +51,16 @@ SINGLE_CF = [False]
 SINGLE = [False, False]       # the current request of SED.interpolate / interpolate_variable is a single-precision array
 
 
+HELD = {}      # id(request array the driver passes to several calls) -> the radii the driver put into it
+
+
+def _requested(apertures):
+    """the radii asked for: for an array object the driver re-uses across calls, the values it put in (a call that overwrites its
+    argument must not change what the next call is asked)"""
+    h = HELD.get(id(apertures))
+    return h.copy() if h is not None else np.array(apertures, float, copy=True)
+
+
 def install(ctx):
     from sedfitter.convolved_fluxes import ConvolvedFluxes
     from sedfitter.sed import SED
@@ -58,7 +68,8 @@ def install(ctx):
     def cf_snapshot(self, apertures):
         SINGLE_CF[0] = np.asarray(apertures.value).dtype.kind == 'f' and np.asarray(apertures.value).dtype.itemsize < 8
         # fluxes and errors are taken in mJy whatever unit the table holds them in (they may differ from each other)
-        return (probe.arr(apertures.to(u.au)), probe.arr(self.flux.to(u.mJy)), None if self.error is None else probe.arr(self.error.to(u.mJy)),
+        return (HELD[id(apertures)].copy() if id(apertures) in HELD else probe.arr(apertures.to(u.au)),
+                probe.arr(self.flux.to(u.mJy)), None if self.error is None else probe.arr(self.error.to(u.mJy)),
                 probe.arr(self.model_names), None if self.apertures is None else probe.arr(self.apertures.to(u.au)), self.central_wavelength,
                 probe.arr(self.flux))
 
@@ -111,7 +122,7 @@ def install(ctx):
 
     def sed_snapshot(self, apertures):
         SINGLE[0] = np.asarray(apertures).dtype.kind == 'f' and np.asarray(apertures).dtype.itemsize < 8
-        return (np.array(apertures, float, copy=True), probe.arr(self.flux.to(u.mJy)),
+        return (_requested(apertures), probe.arr(self.flux.to(u.mJy)),
                 None if self.apertures is None else probe.arr(self.apertures.to(u.au)), float((1.0 * self.flux.unit).to(u.mJy).value))
 
     def sed_post(self, apertures, OLD, result):
@@ -141,7 +152,7 @@ def install(ctx):
 
     def var_snapshot(self, wavelengths, apertures):
         SINGLE[1] = np.asarray(apertures).dtype.kind == 'f' and np.asarray(apertures).dtype.itemsize < 8
-        return (np.array(wavelengths, float, copy=True), np.array(apertures, float, copy=True), probe.arr(self.flux.to(u.mJy)),
+        return (np.array(wavelengths, float, copy=True), _requested(apertures), probe.arr(self.flux.to(u.mJy)),
                 None if self.apertures is None else probe.arr(self.apertures.to(u.au)), probe.arr(self.wav.to(u.micron)),
                 float((1.0 * self.flux.unit).to(u.mJy).value))
 
@@ -217,7 +228,7 @@ def run(ctx):
     ctx.assume('the smallest knot is requested only in the table\'s own unit (a unit round trip can land 1 ulp below it and be legitimately refused)',
                'interpolate_variable clamps to 0.999*a_max by design: anything between the interpolants at 0.999*a_max and a_max is accepted',
                'rtol 1e-11 (1e-9 for the composite SED)')
-    ctx.require_events('ConvolvedFluxes.interpolate:post', 'SED.interpolate:post', 'SED.interpolate_variable:post', 'variable:node-checked',
+    ctx.require_events('sed:same-request-array-reused-across-tables', 'convolved:same-request-quantity-reused-across-tables', 'ConvolvedFluxes.interpolate:post', 'SED.interpolate:post', 'SED.interpolate_variable:post', 'variable:node-checked',
                        'refused:convolved', 'refused:sed', 'refused:variable', 'convolved:same-table-again', 'convolved:table-changed-between-calls', 'convolved:table-without-errors', 'sed:apertures-replaced-between-calls', 'sed:fluxes-replaced-between-calls', 'convolved:apertures-replaced-between-calls', 'convolved:request-dtypes', 'convolved:flux-scaled-with-augmented-assignment')
     ctx.require_regimes('sed:request-as-integers', 'sed:request-as-float32', 'single-aperture', 'convolved:no-apertures', 'convolved:flux-unit-not-mJy', 'convolved:error-unit-differs', 'sed:desc-wav', 'sed:flux-unit-not-mJy', 'unit:pc', 'unit:cm', 'sed-apertures:cm', 'above-table', 'on-knot')
     n_it = 250 if ctx.quick else 10000
@@ -314,6 +325,18 @@ def run(ctx):
                 if list(cf.model_names) == list(new_order):
                     cf.interpolate(rq)
                     ctx.event('convolved:table-changed-between-calls')
+            if it % 4 == 3 and n_ap >= 2 and not no_ap:
+                # one and the same request quantity handed to two tables one after the other, the first ending well below some radii
+                import copy as _copy
+                cf0 = _copy.deepcopy(cf)
+                cf0.apertures = (np.asarray(cf.apertures.to(u.au).value, float) * 0.2) * u.au
+                t_now = np.asarray(cf.apertures.to(u.au).value, float)
+                shq = np.array(np.append(req, max(t_now[-1] * 0.9, t_now[0] * 1.001)), float) * u.au
+                HELD[id(shq)] = np.array(shq.value, float)
+                cf0.interpolate(shq)
+                cf.interpolate(shq)
+                HELD.clear()
+                ctx.event('convolved:same-request-quantity-reused-across-tables')
         except Exception as exc:
             ctx.raised(exc, 'convolved:raised', 'ConvolvedFluxes.interpolate raised inside the table: %r' % (exc,), wit)
         ctx.case(('cf', it, ctx.shard), nontrivial=n_ap >= 2, sample={'table_au': tab_au, 'request_au': req} if it < 3 else None)
@@ -393,6 +416,31 @@ def run(ctx):
                 ctx.event('sed:fluxes-replaced-between-calls')
         except Exception as exc:
             ctx.raised(exc, 'sed:raised:%s' % type(exc).__name__, 'SED.interpolate raised for radii inside/above the table: %r' % (exc,), wit)
+        if it % 4 == 2 and n_ap >= 2:
+            # one and the same request array (bare float64 numbers) handed to two SEDs one after the other, the first with a table
+            # that ends well below some of the radii: the second SED is still asked for the radii the caller put in
+            shared = np.array(np.append(req, max(tab_s[-1] * 0.9, tab_s[0] * 1.001)), float)
+            HELD[id(shared)] = shared.copy()
+            s0 = SED()
+            s0.name = 'small'
+            s0.distance = 1 * u.kpc
+            s0.wav = s.wav.copy()
+            s0.apertures = (tab_s * 0.2) * u.au
+            s0.flux = s.flux.copy()
+            s0.error = s.error.copy()
+            fwv = wav[:2].copy()
+            shared_v = np.array([max(tab_s[-1] * 0.9, tab_s[0] * 1.001), max(tab_s[-1] * 0.5, tab_s[0] * 1.001)], float)
+            HELD[id(shared_v)] = shared_v.copy()
+            try:
+                s0.interpolate(shared)
+                s.interpolate(shared)
+                s0.interpolate_variable(fwv, shared_v)
+                s.interpolate_variable(fwv, shared_v)
+                ctx.event('sed:same-request-array-reused-across-tables')
+            except Exception as exc:
+                ctx.raised(exc, 'sed:raised:shared-request:%s' % type(exc).__name__, 'SED.interpolate raised for a request array used twice: %r' % (exc,),
+                           {'table_au': tab_s, 'request_au': HELD[id(shared)]})
+            HELD.clear()
         ctx.case(('sed', it, ctx.shard), nontrivial=n_ap >= 2)
         if n_ap >= 2:
             below = np.append(req, tab_s[0] * (1 - 10 ** rng.uniform(-9, -0.3)))
